@@ -75,6 +75,7 @@ type Contract struct {
 	Closures  map[int][]GhostUpdate // ghost updates at MakeClosure ordinal k
 	Ghosts    []GhostStmt
 	Thread    bool
+	Terminates bool // every loop of the function needs a variant (or is a range loop)
 	ThreadWG  ast.Expr // the WaitGroup whose Done the thread calls exactly once
 	GhostTags []string
 	Probes    []ProbeDef
@@ -423,6 +424,11 @@ func (s *Specs) loadSpecFile(w *World, path string, pkg *packages.Package, trust
 				}
 				cur.ThreadWG = e
 			}
+		case "terminates":
+			if cur == nil {
+				return fail(l, "terminates outside contract")
+			}
+			cur.Terminates = true
 		case "guarded":
 			// guarded <mutex>: target, target ...   (thread contracts: lockset discipline for shared locations)
 			if cur == nil {
